@@ -9,6 +9,16 @@ import (
 // AssignmentToString returns the string representation of the assignment.
 func AssignmentToString(f *model.Function, a model.Assignment) string {
 	var sb strings.Builder
+	if nest, ok := a.(model.NestStruct); ok {
+		// Render the contents one by one so that each error-returning
+		// assignment is followed by its own error check.
+		sb.WriteString(nest.Open())
+		for _, content := range nest.Contents {
+			sb.WriteString(AssignmentToString(f, content))
+		}
+		sb.WriteString(nest.Close())
+		return sb.String()
+	}
 	sb.WriteString(a.String())
 	if a.RetError() {
 		if f.DstVarStyle == model.DstVarReturn && f.Dst.Pointer {
